@@ -22,6 +22,10 @@ Instructions (each yields one register unless noted):
   ["guard", g, [instr…]]                   run the instructions inside `guarded(regs[g])` (registers are shared)
   ["try", [instr…]]                        run the instructions, catching the exception of ["raise"] (registers made before it stay)
   ["raise"]                                raise an exception (class Boom) at this point
+  ["prove"]                                a proving step HERE (backend.prove(), as a notebook cell or an explicit call followed by
+                                           more work would do), in main or inside a body; yields nothing.  After every proving step
+                                           (these and the final one) the worker records in out["steps"] what qapsplit read, the outcome,
+                                           the signatures, and the content of pysnark_schedule / pysnark_eqs_* as the step left them
 argspec / retspec: register index | {"int": k} | {"list": […]} | {"tuple": […]}
 Inside a body the registers are the flattened non-integer leaves of the arguments, then the body's own.
 
@@ -180,6 +184,7 @@ class Interp:
                     # the backend state the program continues in, against the one the `try` statement was entered in
                     self.after_exception.append([ctx0, B.vc_ctx])
             elif op == "raise": raise Boom("boom")
+            elif op == "prove": prove_step()
             else: raise ValueError("unknown instruction " + str(ins))
 
     def call(self, fname, mode, args):
@@ -227,6 +232,34 @@ def readf(name):
         return None
 
 
+steps = []
+
+
+def prove_step():
+    """one proving step of the real backend; what it read, how it ended and which files it left (the files of the step: the ones
+    whose content prove() is responsible for; pysnark_eqs itself is in `disk`)"""
+    snapshot["disk"] = None; snapshot["sigs"] = None
+    st = {"prove": None, "ctx": B.vc_ctx}
+    err = io.StringIO()
+    try:
+        with contextlib.redirect_stderr(err), contextlib.redirect_stdout(io.StringIO()):
+            B.prove()
+    except BaseException as e:
+        if isinstance(e, (KeyboardInterrupt, SystemExit)): raise
+        st["prove"] = [type(e).__name__, str(e)[:400]]
+        tb = traceback.extract_tb(e.__traceback__)
+        st["prove_at"] = f"{os.path.basename(tb[-1].filename)}:{tb[-1].name}"
+        del e, tb
+    gc.collect()            # closes qapsplit's schedule file object if an exception kept its frame alive
+    st["stderr"] = err.getvalue()[-6000:]
+    st["disk"] = snapshot["disk"]
+    st["sigs"] = snapshot["sigs"]
+    st["files"] = {name: readf(name) for name in sorted(os.listdir("."))
+                   if name.startswith("pysnark_eqs_") or name == "pysnark_schedule"}
+    steps.append(st)
+    return st
+
+
 def main():
     case = json.loads(sys.stdin.read())
     out = {"id": case.get("id")}
@@ -239,21 +272,13 @@ def main():
         if isinstance(e, (KeyboardInterrupt, SystemExit)): raise
         out["run"] = f"{type(e).__name__}: {e}"[:300]
         out["run_tb"] = traceback.format_exc().splitlines()[-6:]
-    err = io.StringIO()
-    try:
-        with contextlib.redirect_stderr(err), contextlib.redirect_stdout(io.StringIO()):
-            B.prove()
-        out["prove"] = None
-    except BaseException as e:
-        if isinstance(e, (KeyboardInterrupt, SystemExit)): raise
-        out["prove"] = [type(e).__name__, str(e)[:400]]
-        tb = traceback.extract_tb(e.__traceback__)
-        out["prove_at"] = f"{os.path.basename(tb[-1].filename)}:{tb[-1].name}"
-        del e, tb
-    gc.collect()            # closes qapsplit's schedule file object if an exception kept its frame alive
-    out["stderr"] = err.getvalue()[-6000:]
-    out["disk"] = snapshot["disk"]
-    out["sigs"] = snapshot["sigs"]
+    st = prove_step()
+    out["prove"] = st["prove"]
+    if "prove_at" in st: out["prove_at"] = st["prove_at"]
+    out["stderr"] = st["stderr"]
+    out["disk"] = st["disk"]
+    out["sigs"] = st["sigs"]
+    out["steps"] = steps
     # the complete files as a finished process leaves them (interpreter exit flushes the writers)
     for fobj in (B.qape, B.qapv, B.qapvo):
         if fobj is not None:
